@@ -194,10 +194,9 @@ class EnvSpec:
                 abi_flags = abi_impl[len(python_tag) :]
                 if abi_flags and not abi_flags.isalpha():
                     return None
-                if (
-                    free_threaded is not None
-                    and abi_impl.endswith("t") is not free_threaded
-                ):
+                # the free-threading flag need not come last: cp313td is the
+                # free-threaded debug ABI
+                if free_threaded is not None and ("t" in abi_flags) != free_threaded:
                     return None
             if major and minor and impl == "py":
                 # pyXY wheels can be loaded by any X.* interpreter at or above X.Y
